@@ -375,12 +375,21 @@ func (c *Ctx) reachedOnlyFrom(fn *ssa.Function, allowed func(root *ssa.Function)
 // `for i := 0; i < K; i++` and `for i := range K` both give K.
 func loopTrip(a an.PathAtom) (n int64, ph *ssa.Phi, exit bool, ok bool) {
 	x, y, op, isCmp := effCmp(a)
-	if !isCmp || (op != token.LSS && op != token.GEQ) {
+	if !isCmp || (op != token.LSS && op != token.GEQ && op != token.LEQ && op != token.GTR) {
 		return 0, nil, false, false
 	}
 	k, isC := y.ConstInt()
 	if !isC {
 		return 0, nil, false, false
+	}
+	if op == token.LEQ || op == token.GTR {
+		// x <= K continues exactly when x < K+1
+		k++
+		if op == token.LEQ {
+			op = token.LSS
+		} else {
+			op = token.GEQ
+		}
 	}
 	nf, okN := an.Norm(x)
 	if !okN || nf.Mode != an.ModeNone || len(nf.Lin.T) != 1 || !nf.Lin.C.IsInt() {
